@@ -69,6 +69,11 @@ _BAD_UTF8_ESC = re.compile(r"%[89A-Fa-f][0-9A-Fa-f]")
 def f12_query_replacement_char(rec, args):
     """The observed query pairs contain U+FFFD although the supplied text has none, and the supplied/raw text contains a
     non-ASCII escape (the only way parse_qsl(errors='replace') can produce U+FFFD)."""
+    obs = rec.get("observed")
+    if isinstance(obs, dict) and isinstance(obs.get("problems"), list):
+        # several accessors are judged per case: every reported problem must be the query one
+        if not all(str(p).startswith(("query=", "query_pairs")) for p in obs["problems"]):
+            return False
     blob = json.dumps([rec.get("observed"), rec.get("msg")], ensure_ascii=True)
     text = json.dumps(rec.get("args"), ensure_ascii=True)
     if "\\ufffd" in text.lower() or "%ef%bf%bd" in text.lower():
